@@ -152,6 +152,10 @@ func runC19(e *Env) {
 					}
 				}
 				if !have || !isInt {
+					// helper constants of the package (shift amounts, masks written in lower camel case) are not UAPI names
+					if name != strings.ToUpper(name) {
+						continue
+					}
 					recs = append(recs, rec{"E4.const", t + "/unix." + name, p.Pos(c.Pos()), "constant has no UAPI oracle value", false, true})
 					continue
 				}
@@ -182,7 +186,14 @@ func runC19(e *Env) {
 							if i >= len(vs.Values) {
 								continue
 							}
-							sel, ok := ast.Unparen(vs.Values[i]).(*ast.SelectorExpr)
+							ve := ast.Unparen(vs.Values[i])
+							// a conversion T(unix.X) initialises from unix.X just as well
+							if ce, isCall := ve.(*ast.CallExpr); isCall && len(ce.Args) == 1 {
+								if tv, okT := root.TypesInfo.Types[ce.Fun]; okT && tv.IsType() {
+									ve = ast.Unparen(ce.Args[0])
+								}
+							}
+							sel, ok := ve.(*ast.SelectorExpr)
 							if !ok {
 								continue
 							}
@@ -204,7 +215,39 @@ func runC19(e *Env) {
 					}
 				}
 			}
-			add(nInit >= 15, "E4.const", t+"/init/count", "", fmt.Sprintf("%d root constants initialised from internal/unix", nInit), fmt.Sprintf("only %d root constants are initialised from internal/unix", nInit))
+			// whatever the initialisers look like: every root constant whose name is the camel-case of a UAPI name has the kernel's value
+			nByName := 0
+			norm := func(x string) string { return strings.ToLower(strings.ReplaceAll(x, "_", "")) }
+			byNorm := map[string]string{}
+			for un := range or.Consts {
+				byNorm[norm(un)] = un
+			}
+			for _, gn := range root.Types.Scope().Names() {
+				c, ok := root.Types.Scope().Lookup(gn).(*types.Const)
+				if !ok {
+					continue
+				}
+				if _, isExp := rootConsts[gn]; isExp {
+					continue
+				}
+				un, ok := byNorm[norm(strings.TrimPrefix(gn, "errno"))]
+				if !ok {
+					continue
+				}
+				got, isInt := tables.Uint64(c.Val())
+				if !isInt {
+					continue
+				}
+				want := or.Consts[un]
+				if per, okp := or.ConstsPerArch[un]; okp && isLinux {
+					if w, okw := per[parts[1]]; okw {
+						want = w
+					}
+				}
+				nByName++
+				add(got == want, "E4.const", t+"/value/"+gn, p.Pos(c.Pos()), fmt.Sprintf("%#x = %s", got, un), fmt.Sprintf("%s = %#x under %s but %s = %#x", gn, got, t, un, want))
+			}
+			add(nInit+nByName >= 15, "E4.const", t+"/init/count", "", fmt.Sprintf("%d root constants initialised from internal/unix, %d compared with the kernel's value by name", nInit, nByName), fmt.Sprintf("only %d root constants are tied to internal/unix or to the kernel's values", nInit+nByName))
 
 			// stubs
 			if !isLinux {
